@@ -110,6 +110,14 @@ def prove_pickle(src_root, state_name, ex: Explorer):
                   and isinstance(s2.attrs.get('abort'), Bound), 'state restored to the class with the same VALUE, bound to the NEW object, behind the lock wrapper')
         ctx.prove(f'C17.pickle.runtime-fresh[{tag}]', t2.attrs.get('_transfer_task') is None and t2.attrs.get('_remotely_queue_task') is None
                   and t2.attrs.get('state_listeners') == [] and isinstance(t2.attrs.get('_state_lock'), A.LockVal) and '_offset' not in t2.attrs)
+        # a SECOND record restored in the same process: the mutable run-time fields are the object's own
+        t3 = new(it, MODEL, 'Transfer')
+        it.call(it.getattr(t3, '__setstate__'), [dict(st)], {})
+        own = all(t3.attrs.get(k) is not t2.attrs.get(k) for k in ('state_listeners', '_state_lock', '_speed_log') if t2.attrs.get(k) is not None) \
+            and t3.attrs.get('state') is not t2.attrs.get('state')
+        ctx.prove(f'C17.pickle.runtime-own[{tag}]', own and isinstance(t3.attrs.get('state_listeners'), list),
+                  'two restored transfers share a mutable run-time field (listener list, lock, speed log or state object): a listener registered '
+                  'on one is notified for the other')
     ex.run(path, f'pickle-{state_name}')
 
 
@@ -142,6 +150,9 @@ def prove_key(src_root, ex: Explorer):
 
             def pyvc_setitem(self, it2, key, value):
                 db[id(key)] = (key, value)
+
+            def pyvc_len(self, it2):
+                return len(db)
 
             def pyvc_getattr(self, it2, name):
                 if name == 'items':
@@ -209,6 +220,9 @@ def prove_write(src_root, ex: Explorer, res):
 
             def pyvc_setitem(self, it2, key, value):
                 shelf[key] = value
+
+            def pyvc_len(self, it2):
+                return len(shelf)
 
             def pyvc_getattr(self, it2, name):
                 if name == 'items':
